@@ -23,6 +23,8 @@ def run(repo: Repo, tier, rep: Report):
     rep.ob("O.generate_interactions", repo.construct(EDGELIST, "generate_interactions"), "one row per stream event")
     n = check_kinds(repo, rep, functions={"parse_interactions", "generate_interactions"})
     rep.floor("typed sinks (interaction reader)", n, 0)
+    from sa.make_str_check import check_make_str
+    check_make_str(repo, rep)
     from sa.fileformat import check_file_format
     from sa.line_model import check_parser, check_decorator
     m = check_file_format(repo, rep, "interactions", parts=("writer", "reader"))
